@@ -68,7 +68,7 @@ func (cr *checkRun) replay(o *Obl, r SolveResult) replayResult {
 		return fail("solver returned no model")
 	}
 	pkgName := fn.Pkg.Pkg.Name()
-	bl := &builder{e: enc, m: r.Model, pkg: pkgName}
+	bl := &builder{e: enc, m: r.Model, pkg: pkgName, imports: map[string]bool{}}
 	var lits []string
 	for i, in := range enc.inputs {
 		l, err := bl.build(in, enc.inputTypes[i], 0)
@@ -109,6 +109,9 @@ func (cr *checkRun) replay(o *Obl, r SolveResult) replayResult {
 		fmt.Fprintf(&b, "\t\t%s := %s\n\t\treturn []interface{}{%s}\n", strings.Join(rs, ", "), call, strings.Join(rs, ", "))
 	}
 	body := b.String()
+	for imp := range bl.imports {
+		body = "//import " + imp + "\n" + body
+	}
 	rf.GoSource = body
 	out, _, err := runInPackage(pkgName, body, 60*time.Second)
 	rf.Observed = out
